@@ -123,7 +123,7 @@ Proof.
     destruct (apply_op_ao dbg hp hpo hd u o u' H A) as [A'|(sty & Est & Hns)]; [exact A'|].
     exfalso. rewrite (u_scheme_type_spb u sty W Est) in Hns. rewrite Hs in Hns. discriminate Hns.
   - exact (apply_op_oks3 dbg hp hpo hd HOK HV u o u' G H O).
-  - intros s Hs. destruct Fh as [E|[E|(h & E & Ho)]].
+  - intros s Hs. destruct Fh as [E|[E|(h & E & _ & Ho)]].
     + rewrite E in Hs. exact (Hh s Hs).
     + rewrite E in Hs. discriminate.
     + rewrite E in Hs. inversion Hs; subst s. apply ok_nosp.
